@@ -87,7 +87,23 @@ def check_vectorize(ctx, rule, module_names):
         for node in ast.walk(m.tree):
             if not (isinstance(node, ast.Call) and ast.unparse(node.func) in ("np.vectorize", "numpy.vectorize")):
                 continue
-            if any(k.arg == "otypes" for k in node.keywords) or not node.args:
+            ot = next((k.value for k in node.keywords if k.arg == "otypes"), None)
+            if isinstance(ot, ast.Constant) and ot.value is None:
+                ot = None  # otypes=None spelled out: the default
+            if ot is not None:
+                # a stated output type is cast to silently: it has to be double, literally (not the type of an argument,
+                # an integer pressure grid would truncate every result)
+                DOUBLE = {"float", "np.float64", "numpy.float64", "np.double", "numpy.double", "np.float_", "'d'", "'float64'", "'f8'", "'float'", "'double'"}
+                ents = ot.elts if isinstance(ot, (ast.List, ast.Tuple)) else [ot]
+                okd = all(ast.unparse(e).replace('"', "'") in DOUBLE for e in ents) and not (isinstance(ot, ast.Constant) and isinstance(ot.value, str) and set(ot.value) - {"d"})
+                n += 1
+                ctx.check(
+                    okd, rule, f"{mn}:np.vectorize otypes at line {node.lineno}", f"{m.relpath}:{node.lineno}",
+                    "the output type stated for a vectorised correlation is double (results are cast to it without a warning)",
+                    signature="otypes " + ast.unparse(ot)[:60], otypes=ast.unparse(ot)[:120],
+                )
+                continue
+            if not node.args:
                 continue
             target = node.args[0]
             cands = [target] if isinstance(target, ast.Lambda) else defs.get(getattr(target, "id", None), [])
